@@ -360,3 +360,39 @@ def syncml_shapes(T, rng):
             ddw = serialize(DD, dd, pubid_mode="str")
             out.append((L, syncml_doc(T, L, "Results", b"application/vnd.syncml.dmtnds+wbxml", [('o', ddw)]), "syncml-dmtnds"))
     return out
+
+
+# ---------------------------------------------------------------------------------------------------------
+# helpers offered to the C07 check (XML half): XML SOURCES that put raw CR / TAB / LF into the tree (a literal CR of an
+# XML source is turned into LF by Expat, so they are written as character references), and the normalisation under which
+# canonical generation equals compact generation (theorem c07_xml_compact_canonical_e, Proofs/EncXmlC07e.v)
+# ---------------------------------------------------------------------------------------------------------
+
+def c07_cr_sources():
+    """list of (kind, language id, xml bytes)"""
+    wml = (b'<?xml version="1.0"?><!DOCTYPE wml PUBLIC "-//WAPFORUM//DTD WML 1.3//EN" "http://www.wapforum.org/DTD/wml13.dtd">'
+           b'<wml><card id="a&#13;&#10;b&#9;c&#10;d&#13;e" title="plain"><p>x&#13;y&#13;&#10;z&#13;</p><p>&#13;<b>bold&#13;</b>&#13;&#10;tail</p>'
+           b'<p>only&#9;tab&#10;lf</p></card></wml>')
+    syn = (b'<?xml version="1.0"?><!DOCTYPE SyncML PUBLIC "-//SYNCML//DTD SyncML 1.1//EN" "http://www.syncml.org/docs/syncml_represent_v11_20020213.dtd">'
+           b'<SyncML><SyncBody><Add><CmdID>1&#13;</CmdID><Meta><Type xmlns="syncml:metinf">text/x-vcard</Type></Meta><Item>'
+           b'<Data>BEGIN:VCARD&#13;&#10;N:Doe;John&#13;&#10;NOTE:lone&#13;cr&#13;&#10;END:VCARD&#13;&#10;</Data></Item></Add>'
+           b'<Replace><CmdID>2</CmdID><Item><Data>a&#13;&#10;b]]&gt;c&#13;</Data></Item></Replace></SyncBody></SyncML>')
+    si = (b'<?xml version="1.0"?><!DOCTYPE si PUBLIC "-//WAPFORUM//DTD SI 1.0//EN" "http://www.wapforum.org/DTD/si.dtd">'
+          b'<si><indication href="x:a&#13;b" si-id="i&#9;d&#10;e">t&#13;&#10;x&#13;t</indication></si>')
+    return [("raw-cr", 1104, wml), ("raw-cr", 2101, syn), ("raw-cr", 1301, si)]
+
+
+def c07_eol_norm(info):
+    """XML's own normalisation applied to a c07_lib.xml_infoset() root (name, attrs, kids) of a CANONICAL reading: line ends in
+    text (CR LF / CR -> LF), attribute-value normalisation (then TAB / LF / CR -> space); compare the result with the compact
+    keep-ws reading.  (Valid unless a text ending in CR is directly followed by a CDATA payload starting with LF — the tree
+    builder never makes that.)"""
+    name, attrs, kids = info
+
+    def eol(s):
+        return s.replace("\r\n", "\n").replace("\r", "\n")
+
+    def av(s):
+        return eol(s).replace("\n", " ").replace("\t", " ")
+    attrs2 = tuple(av(a) if i % 2 else a for i, a in enumerate(attrs))
+    return (name, attrs2, tuple(c07_eol_norm(k) if isinstance(k, (list, tuple)) and not isinstance(k, str) else eol(k) for k in kids))
